@@ -2,6 +2,7 @@ package seq
 
 import (
 	"fmt"
+	"os"
 	"path/filepath"
 	"time"
 
@@ -140,6 +141,7 @@ func ExecC17(c Case) *ev.Result {
 	ds := &dirState{wasFull: map[string]bool{}, limit: w.effLimit()}
 	var bursts [][]string // keys of each burst still (possibly) present
 	nb := 0
+	dropped := map[string]map[string]bool{} // root no longer configured -> files it held when it was dropped
 	for i, op := range c.Ops {
 		what := fmt.Sprintf("step %d (%s)", i, op.K)
 		w.step = i
@@ -190,6 +192,22 @@ func ExecC17(c Case) *ev.Result {
 			if r.Fail == "" && !w.probeReuse(what, ds, i) {
 				break
 			}
+		case "droproot":
+			// reopen with the last root no longer configured (a decommissioned disk): what it holds stays
+			// readable, but nothing new may be created there
+			if len(w.Cfg.Storage.RootDirs) < 2 {
+				continue
+			}
+			w.closeDB()
+			w.M.Reopen()
+			last := w.Cfg.Storage.RootDirs[len(w.Cfg.Storage.RootDirs)-1]
+			w.Cfg.Storage.RootDirs = w.Cfg.Storage.RootDirs[:len(w.Cfg.Storage.RootDirs)-1]
+			dropped[last] = filesUnder(last)
+			if err := w.open(); err != nil {
+				r.Failf("%s: reopening without root %s failed: %v", what, last, err)
+				break
+			}
+			w.Stats["root-dropped"]++
 		default:
 			if !w.Apply(i, op) {
 				break
@@ -202,12 +220,34 @@ func ExecC17(c Case) *ev.Result {
 		if !w.checkTree(what, ds, wrote) {
 			break
 		}
+		for root, had := range dropped {
+			for f := range filesUnder(root) {
+				if !had[f] {
+					r.Failf("%s: %s was created inside %s, which is no longer a configured root", what, f, root)
+				}
+			}
+		}
+		if r.Fail != "" {
+			break
+		}
 	}
 	if r.Fail == "" {
 		w.checkKeys(0, "final GetKeys")
 	}
 	finish(w, r)
 	return r
+}
+
+// filesUnder lists every file below dir (relative paths).
+func filesUnder(dir string) map[string]bool {
+	out := map[string]bool{}
+	filepath.WalkDir(dir, func(p string, d os.DirEntry, err error) error {
+		if err == nil && !d.IsDir() {
+			out[p] = true
+		}
+		return nil
+	})
+	return out
 }
 
 // probeReuse: a directory that once reached the limit and has regained room through deletions must
